@@ -163,6 +163,26 @@ func (a *UDPAssociation) Context() context.Context {
 	return a.ctx
 }
 
+// ownerIP returns the IP address of the client that owns the association:
+// the address named in the UDP ASSOCIATE request or, when the request named
+// none (0.0.0.0:0), the peer address of the TCP control connection.
+// It returns nil if neither is known.
+func (a *UDPAssociation) ownerIP() net.IP {
+	a.mu.RLock()
+	expected := a.ExpectedClientAddr
+	a.mu.RUnlock()
+
+	if expected != nil && expected.IP != nil && !expected.IP.IsUnspecified() {
+		return expected.IP
+	}
+	if a.TCPConn != nil {
+		if tcpAddr, ok := a.TCPConn.RemoteAddr().(*net.TCPAddr); ok {
+			return tcpAddr.IP
+		}
+	}
+	return nil
+}
+
 // ReadLoop reads datagrams from the SOCKS5 client and relays them through the mesh.
 // This should be run in a goroutine.
 func (a *UDPAssociation) ReadLoop() {
@@ -183,16 +203,12 @@ func (a *UDPAssociation) ReadLoop() {
 			continue
 		}
 
-		// Verify client address if expected address was specified
-		a.mu.RLock()
-		expected := a.ExpectedClientAddr
-		a.mu.RUnlock()
-
-		if expected != nil && expected.IP != nil && !expected.IP.IsUnspecified() {
-			if !clientAddr.IP.Equal(expected.IP) {
-				// Ignore datagrams from unexpected addresses
-				continue
-			}
+		// Only the client that owns the association may use the relay.
+		// Ignore datagrams from any other address, and all datagrams when
+		// the owner cannot be determined.
+		owner := a.ownerIP()
+		if owner == nil || !clientAddr.IP.Equal(owner) {
+			continue
 		}
 
 		// Record the client address on the first datagram that passed the
